@@ -355,7 +355,7 @@ structure Seg where
   b : List Nat
   mA : List Bool
   mB : List Bool
-  deriving Repr, DecidableEq
+  deriving Repr, DecidableEq, Inhabited
 
 def packWord (a : Nat) (mA mB : Bool) : Nat :=
   a ||| ((if mA then 1 else 0) <<< 14) ||| ((if mB then 1 else 0) <<< 15)
@@ -465,9 +465,16 @@ def compileAdvanced (fuel : Nat) (L : Limits) (sample : WfId → Seg) (p : Prog)
   | .error (e, _) => .error e
   | .ok p' => finish sample (parse p')
 
+/-- `setup_single_sequence_mode` (with the repair PF-C16a: a table longer than `max_seq_len` is rejected;
+the lower bound is not checked here, the driver pads a short single table with idle entries when arming) -/
+def setupSingle (L : Limits) (rep : Nat) (es : List Entry) : Except Err Tables :=
+  if L.max < es.length then .error .tooLong else .ok (parseSingle rep es)
+
 /-- single sequencing mode for a depth-1 program -/
-def compileSingle (sample : WfId → Seg) (rep : Nat) (es : List Entry) : Except Err Compiled :=
-  finish sample (parseSingle rep es)
+def compileSingle (L : Limits) (sample : WfId → Seg) (rep : Nat) (es : List Entry) : Except Err Compiled :=
+  match setupSingle L rep es with
+  | .error e => .error e
+  | .ok T => finish sample T
 
 /-- the binary form of a segment -/
 def rawOf (s : Seg) : List Nat := packN (s.a.length / 16) s
@@ -532,5 +539,242 @@ def firstBadBool (exp dev : Array Bool) : Option Nat := Id.run do
 
 def concatMap {α β} (xs : List α) (f : α → Array β) : Array β :=
   xs.foldl (fun acc x => acc ++ f x) #[]
+
+/-! ## Line protocol -/
+open Sexp
+
+def vol? : Sexp → Option (Option Nat)
+  | .atom "-" => some none
+  | s => (nat? s).map some
+
+partial def loop? : Sexp → Option Loop
+  | .list [.atom "w", r, i] => do pure (.leaf (← nat? r) (← nat? i))
+  | .list (.atom "l" :: r :: cs) => do pure (.node (← nat? r) (← cs.mapM loop?))
+  | _ => none
+
+def entry? : Sexp → Option Entry
+  | .list [.atom "e", r, w, v] => do pure ⟨← nat? r, ← nat? w, ← vol? v⟩
+  | _ => none
+
+def seqTab? : Sexp → Option SeqTab
+  | .list (.atom "st" :: r :: v :: es) => do pure ⟨← nat? r, ← vol? v, ← es.mapM entry?⟩
+  | _ => none
+
+inductive Staged where
+  | none
+  | flat1 (rep : Nat) (es : List Entry)
+  | flat2 (p : Prog)
+
+def staged? : Sexp → Option Staged
+  | .atom "none" => some .none
+  | .list (.atom "flat1" :: r :: es) => do pure (.flat1 (← nat? r) (← es.mapM entry?))
+  | .list (.atom "flat2" :: ts) => do pure (.flat2 (← ts.mapM seqTab?))
+  | _ => none
+
+def mode? : Sexp → Option (Option Mode)
+  | .atom "single" => some (some .single)
+  | .atom "advanced" => some (some .advanced)
+  | .atom "auto" => some none
+  | _ => none
+
+def limits? : Sexp → Option Limits
+  | .list [.atom "limits", a, b] => do pure ⟨← nat? a, ← nat? b⟩
+  | _ => none
+
+def volS : Option Nat → Sexp
+  | none => .atom "-"
+  | some v => ofNat v
+
+def errS (e : Err) : Sexp := .list [.atom "error", .atom e.name]
+
+def tablesS (m : Mode) (T : Tables) (stagedOk : Bool) : Sexp :=
+  .list [.atom "ok", .atom (match m with | .single => "single" | .advanced => "advanced"),
+    .list (.atom "wfs" :: T.wfs.map ofNat),
+    .list (.atom "seqtabs" :: T.seqTabs.map (fun tab =>
+      .list (tab.map (fun (e, v) => .list [ofNat e.rep, ofNat e.elem, volS v])))),
+    .list (.atom "adv" :: T.adv.map (fun a => .list [ofNat a.rep, ofNat a.elem])),
+    .list [.atom "staged-plays-source", ofBool stagedOk]]
+
+/-- the model of `TaborProgram.__init__` up to the tables; the flattened program is supplied (`staged`),
+`flatten_and_balance` itself belongs to C06 -/
+def modelCompile (m : Option Mode) (L : Limits) (src : Loop) (st : Staged) : Sexp :=
+  let l0 := initProgram src
+  match chooseMode m l0 with
+  | .single =>
+    if l0.depth ≠ 1 then errS .assertion else
+    match st with
+    | .flat1 rep es =>
+      match setupSingle L rep es with
+      | .error e => errS e
+      | .ok T => tablesS .single T (repeatL rep (playEntries es) == src.play)
+    | _ => Sexp.err "staged-program-missing"
+  | .advanced =>
+    if ¬ (l0.depth > 1) ∨ l0.rep ≠ 1 then errS .assertion else
+    match st with
+    | .flat2 p =>
+      match setupAdvanced (fuelFor p) L p with
+      | .error (e, _) => errS e
+      | .ok p' => tablesS .advanced (parse p') (playProg p == src.play)
+    | _ => Sexp.err "staged-program-missing"
+
+/-- dyadic sample list `(d E m1 m2 …)`: values `m · 2^E` -/
+def dyadic? : Sexp → Option (List Rat)
+  | .list (.atom "d" :: e :: ms) => do
+    let e ← int? e
+    let ms ← ms.mapM int?
+    let scale : Rat := if e ≥ 0 then ((2 : Rat) ^ e.toNat) else 1 / ((2 : Rat) ^ (-e).toNat)
+    pure (ms.map (fun (m : Int) => (m : Rat) * scale))
+  | _ => none
+
+def optDyadic? : Sexp → Option (Option (List Rat))
+  | .atom "none" => some none
+  | s => (dyadic? s).map some
+
+/-- marker samples travel as one atom `b0110…` -/
+def bits? : Sexp → Option (List Bool)
+  | .atom s => if s.startsWith "b" then some ((s.drop 1).toString.toList.map (· == '1')) else none
+  | _ => none
+
+def optBits? : Sexp → Option (Option (List Bool))
+  | .atom "none" => some none
+  | s => (bits? s).map some
+
+def bitsS (bs : List Bool) : Sexp := .atom ("b" ++ String.ofList (bs.map (fun b => if b then '1' else '0')))
+
+def tentry3? : Sexp → Option TEntry
+  | .list [r, e, j] => do pure ⟨← nat? r, ← nat? e, ← nat? j⟩
+  | _ => none
+
+structure Cfg where
+  amp0 : Rat
+  off0 : Rat
+  amp1 : Rat
+  off1 : Rat
+
+def cfg? : Sexp → Option Cfg
+  | .list [.atom "cfg", a0, o0, a1, o1] => do pure ⟨← rat? a0, ← rat? o0, ← rat? a1, ← rat? o1⟩
+  | _ => none
+
+def srcWf? (c : Cfg) : Sexp → Option SrcWf
+  | .list [.atom "wf", i, n, a, b, ma, mb] => do
+    let n ← nat? n
+    pure ⟨← nat? i, n, srcChan c.amp0 c.off0 n (← optDyadic? a), srcChan c.amp1 c.off1 n (← optDyadic? b),
+      srcMarker n (← optBits? ma), srcMarker n (← optBits? mb)⟩
+  | _ => none
+
+def viol (clause : String) (args : List Sexp) : Sexp := .list (.atom "violates" :: .atom clause :: args)
+
+/-- The judge. The implementation's binary segments and tables are replayed with `playAdv` and compared
+sample for sample with the source program's play order of expected codes / markers; all emitted tables and
+segments must respect the device limits. -/
+def judge (m : Mode) (L : Limits) (src : Loop) (wfs : List SrcWf) (raws : List (List Nat))
+    (tabs : List (List TEntry)) (adv : List TEntry) : Sexp := Id.run do
+  -- 1. segments: size, device limits
+  let mut segs : Array Seg := #[]
+  let mut k := 0
+  for raw in raws do
+    match unpack raw with
+    | none => return viol "segment-not-whole-quanta" [ofNat k, ofNat raw.length]
+    | some s =>
+      if !segLenOk s.a.length then return viol "segment-length" [ofNat k, ofNat s.a.length]
+      segs := segs.push s
+    k := k + 1
+  -- 2. sequence table lengths
+  k := 0
+  for tab in tabs do
+    match m with
+    | .advanced =>
+      if tab.length < L.min ∨ L.max < tab.length then
+        return viol "table-length" [ofNat k, ofNat tab.length, ofNat L.min, ofNat L.max]
+    | .single =>
+      if L.max < tab.length then
+        return viol "single-table-too-long" [ofNat k, ofNat tab.length, ofNat L.max]
+    k := k + 1
+  if m == .single ∧ (tabs.length ≠ 1 ∨ adv.length ≠ 1) then
+    return viol "single-mode-shape" [ofNat tabs.length, ofNat adv.length]
+  -- 3. replay
+  match playAdv (List.range raws.length) tabs adv with
+  | none => return viol "dangling-reference" []
+  | some devPlay =>
+    let srcPlay := src.play
+    let mut byId : Array (Option SrcWf) := #[]
+    for w in wfs do
+      if byId.size ≤ w.id then byId := byId ++ Array.replicate (w.id + 1 - byId.size) none
+      byId := byId.set! w.id (some w)
+    let mut srcWfs : List SrcWf := []
+    for i in srcPlay.reverse do
+      match byId[i]? with
+      | some (some w) => srcWfs := w :: srcWfs
+      | _ => return Sexp.err "unknown-source-waveform"
+    let devSegs := devPlay.map (fun i => segs[i]!)
+    let expA := concatMap srcWfs (·.a)
+    let devA := concatMap devSegs (·.a.toArray)
+    if expA.size != devA.size then
+      return viol "total-length" [ofNat devA.size, ofNat expA.size]
+    match firstBadCode expA devA with
+    | some i => return viol "channel-a" [ofNat i, ofNat devA[i]!, ofNat expA[i]!.1, ofNat expA[i]!.2]
+    | none => pure ()
+    let expB := concatMap srcWfs (·.b)
+    let devB := concatMap devSegs (·.b.toArray)
+    match firstBadCode expB devB with
+    | some i => return viol "channel-b" [ofNat i, ofNat (devB[i]?.getD 0), ofNat (expB[i]?.getD (0,0)).1, ofNat (expB[i]?.getD (0,0)).2]
+    | none => pure ()
+    match firstBadBool (concatMap srcWfs (·.mA)) (concatMap devSegs (·.mA.toArray)) with
+    | some i => return viol "marker-a" [ofNat i]
+    | none => pure ()
+    match firstBadBool (concatMap srcWfs (·.mB)) (concatMap devSegs (·.mB.toArray)) with
+    | some i => return viol "marker-b" [ofNat i]
+    | none => pure ()
+    return .list [.atom "ok", ofNat devA.size, ofNat devPlay.length]
+
+def natList? (xs : List Sexp) : Option (List Nat) := xs.mapM nat?
+
+def handle : List Sexp → Sexp
+  | [.atom "model", m, l, .list [.atom "src", src], st] =>
+    match mode? m, limits? l, loop? src, staged? st with
+    | some m, some L, some src, some st => modelCompile m L src st
+    | _, _, _, _ => Sexp.err "bad-args"
+  | [.atom "judge", m, l, .list [.atom "src", src], c, .list (.atom "wfs" :: wfs), .list (.atom "segs" :: segs),
+      .list (.atom "seqtabs" :: tabs), .list (.atom "adv" :: adv)] =>
+    match mode? m, limits? l, loop? src, cfg? c with
+    | some (some m), some L, some src, some c =>
+      match wfs.mapM (srcWf? c), segs.mapM (listOf? nat?), tabs.mapM (listOf? tentry3?), adv.mapM tentry3? with
+      | some wfs, some segs, some tabs, some adv => judge m L src wfs segs tabs adv
+      | _, _, _, _ => Sexp.err "bad-args"
+    | _, _, _, _ => Sexp.err "bad-args"
+  | [.atom "inrange", c, .list (.atom "wfs" :: wfs)] =>
+    match cfg? c with
+    | some c =>
+      match wfs.mapM (srcWf? c) with
+      | some wfs => .list [.atom "ok", ofBool (wfs.all (fun w => w.a.all (fun x => x.1 ≤ x.2) && w.b.all (fun x => x.1 ≤ x.2)))]
+      | none => Sexp.err "bad-args"
+    | none => Sexp.err "bad-args"
+  | [.atom "play", src] =>
+    match loop? src with
+    | some l => .list (.atom "ok" :: l.play.map ofNat)
+    | none => Sexp.err "bad-args"
+  | [.atom "pack", .list (.atom "a" :: a), .list (.atom "b" :: b), ma, mb] =>
+    match natList? a, natList? b, bits? ma, bits? mb with
+    | some a, some b, some ma, some mb =>
+      match pack ⟨a, b, ma, mb⟩ with
+      | .ok raw => .list (.atom "ok" :: raw.map ofNat)
+      | .error e => errS e
+    | _, _, _, _ => Sexp.err "bad-args"
+  | [.atom "unpack", .list raw] =>
+    match natList? raw with
+    | some raw =>
+      match unpack raw with
+      | some s => .list [.atom "ok", .list (s.a.map ofNat), .list (s.b.map ofNat), bitsS s.mA, bitsS s.mB]
+      | none => errS .assertion
+    | none => Sexp.err "bad-args"
+  | [.atom "code14", amp, off, vs] =>
+    match rat? amp, rat? off, dyadic? vs with
+    | some amp, some off, some vs =>
+      match codes amp off vs with
+      | .ok cs => .list [.atom "ok", .list (cs.map ofNat),
+          .list (vs.map (fun v => let a := acceptVolt amp off v; ofBool (a.1 != a.2)))]
+      | .error e => errS e
+    | _, _, _ => Sexp.err "bad-args"
+  | _ => Sexp.err "c16-unknown-request"
 
 end QP.C16
